@@ -36,8 +36,8 @@ _W = r"(?:f32x4|f32x8|f64x2|f64x4)"
 DENY_RE = re.compile(r"^(?:wide::(?:\w+::)*%s|wide::<impl wide::%s>|<wide::%s as wide::\w+>)::(%s)$" % (_W, _W, _W, "|".join(DENY)))
 
 # mask reductions outside the TypeId(Mask)==bool arm, confirmed by reading
-SEL_ALLOW = {
-    "<[T] as IsWithinBounds>::is_within_bounds": "early exit once every lane is false: `&=` can only clear lanes, the result is unchanged",
+SEL_ALLOW = {   # function -> (the one reduction allowed there, un-negated; reason)
+    "<[T] as IsWithinBounds>::is_within_bounds": ("is_false", "early exit once every lane is false: `&=` can only clear lanes, the result is unchanged"),
 }
 
 
@@ -322,8 +322,9 @@ def check_mask_reductions(F, rep):
             if ok:
                 guarded += 1
                 continue
-            if short in SEL_ALLOW:
-                rep.ob("SEL", "%s: %s" % (short, d.split("::")[-1]), True, "allowed: " + SEL_ALLOW[short], F.loc(b, node))
+            negated = bool(parents) and parents[-1].get("k") == "un" and parents[-1].get("op") == "!"
+            if short in SEL_ALLOW and d.endswith("::" + SEL_ALLOW[short][0]) and not negated:
+                rep.ob("SEL", "%s: %s" % (short, d.split("::")[-1]), True, "allowed: " + SEL_ALLOW[short][1], F.loc(b, node))
                 continue
             rep.fail("SEL", "%s reduces a mask with %s" % (short, d.split("::")[-1]),
                      "a mask is collapsed to one bool outside the `TypeId::of::<T::Mask>() == TypeId::of::<bool>()` arm: for SIMD components all "
